@@ -23,8 +23,9 @@ def sh(cmd, cwd=None, timeout=900):
 
 
 def main():
-    pid, n = sys.argv[1], sys.argv[2]
-    wt = '/tmp/wt-%s' % pid
+    tag, n = sys.argv[1], sys.argv[2]
+    pid = tag[:3]                      # worktree tags may carry a round suffix (C03b)
+    wt = '/tmp/wt-%s' % tag
     sd = '%s/seeded/%s' % (wt, n)
     patch = os.path.join(sd, 'patch.diff')
     meta = {'property': pid, 'source': 'independent sub-agent given only the property text and a scratch worktree', 'ran': []}
@@ -78,7 +79,7 @@ def main():
         for v in (results[p]['violations'] + results[p]['broken'])[:3]:
             print('   ', p, v[:260])
     if ok:
-        dst = os.path.join(V, 'seeded', '%s-%s' % (pid, n))
+        dst = os.path.join(V, 'seeded', '%s-%s' % (tag, n))
         os.makedirs(dst, exist_ok=True)
         for fn in ('patch.diff', 'demo.c', 'run.sh', 'notes.txt'):
             if os.path.exists(os.path.join(sd, fn)):
